@@ -165,8 +165,11 @@ class Check:
             self.violations.append((key, what, path))
         return "violation"
 
-    def note_inconclusive(self, what):
+    def note_inconclusive(self, what, fatal=False):
+        """fatal: an undecided unit that stands for many cases (a whole chunk, a driver): never folded into the 5 % allowance."""
         self.inconclusive.append(what)
+        if fatal:
+            self.fatal_inconclusive = getattr(self, "fatal_inconclusive", 0) + 1
 
     # ---- finish ---------------------------------------------------------------------------------
     def finish(self, rule, require_observed=(), min_nontrivial=2):
@@ -196,6 +199,8 @@ class Check:
         broken = []
         if unobserved:
             broken.append(f"deciding monitors observed nothing: {unobserved}")
+        if getattr(self, "fatal_inconclusive", 0):
+            broken.append(f"{self.fatal_inconclusive} undecided chunks / drivers (each stands for many cases)")
         if getattr(self, "max_inconclusive", None) is not None and len(self.inconclusive) > self.max_inconclusive:
             broken.append(f"{len(self.inconclusive)} inconclusive cases (this check tolerates {self.max_inconclusive})")
         elif self.evaluations and len(self.inconclusive) > 0.05 * max(self.evaluations, 1):
